@@ -449,3 +449,65 @@ def c09_lite_header_copy(ctx, v):
     c18_lite_header_copy)."""
     from . import obl_c18
     obl_c18.c18_lite_header_copy(ctx, v)
+
+
+def c09_m_message_roundtrip(ctx, v):
+    """Message::deserialize(Message::serialize(m)) == m, field by field, for the message types with
+    a fixed-shape payload decoded inside Message::deserialize itself, every value of their fields:
+    BlockHeaderHash (hash, id), GhostChainRequest (block id, block hash, fork id — two 32-byte
+    values that must not be exchanged), Ping, SPVChain.  The other types' payload decoders have
+    their own obligations (slip / hop / transaction / block header) or are outside this one."""
+    from .models import as_enum, enum_is, payload
+    ser = ctx.body(r"^message::<impl at [^>]*>::serialize$")
+    de = ctx.body(r"^message::<impl at [^>]*>::deserialize$")
+    ok = 0
+    cases = []
+    def mk(ex):
+        h = lambda n: ex.fresh_value("[u8; 32]", n)
+        return [
+            ("BlockHeaderHash", [h("block_hash"), ex.fresh_value("u64", "block_id")]),
+            ("GhostChainRequest", [ex.fresh_value("u64", "block_id"), h("block_hash"), h("fork_id")]),
+            ("Ping", []),
+            ("SPVChain", []),
+        ]
+    for idx in range(4):
+        ex = ctx.executor(loop_bound=6, inline="auto", max_paths=3000, no_inline=[r"Block::", r"Transaction::", r"HandshakeResponse", r"PeerService", r"GhostChainSync", r"fmt", r"to_hex"])
+        ex.pure = [r".*"]
+        name, fields = mk(ex)[idx]
+        msg = S.EnumV("Message", name, dict(ctx.enums["Message"])[name], {name: S.Agg("variant", name, fields)})
+        outs = ex.run(ser, [S.Ref(S.Cell(msg))], S.State())
+        v.paths += len(outs)
+        rets = _single_return(ex, outs, v, "Message::serialize(%s)" % name)
+        if rets is None:
+            return
+        for o in rets:
+            wire = o.value
+            if not isinstance(wire, S.Bytes):
+                return v.undecided("%s: encoder result is not a byte string" % name)
+            outs2 = ex.run(de, [ex.copy_value(wire)], _st(o.pc))
+            v.paths += len(outs2)
+            rets2 = _single_return(ex, outs2, v, "Message::deserialize(%s)" % name)
+            if rets2 is None:
+                return
+            for o2 in rets2:
+                e = as_enum(ex, o2.value, "Result")
+                v.queries += 1
+                if ex.feasible(o2.pc, enum_is(ex, e, "Err")):
+                    L.fail_structural(v, o2, "%s: the decoder rejects the encoder's own output" % name)
+                    continue
+                back = payload(ex, e, "Ok")
+                if not (isinstance(back, S.EnumV) and back.variant == name):
+                    L.fail_structural(v, o2, "%s decodes into %s" % (name, getattr(back, "variant", "?")))
+                    continue
+                bf = back.payload[name].fields
+                bad = False
+                for k, (a, b) in enumerate(zip(fields, bf)):
+                    if isinstance(a, S.Agg):
+                        a, b = a.fields[0], (ex.deref_value(b) if isinstance(b, S.Ref) else b).fields[0]
+                    v.queries += 1
+                    if ex.feasible(o2.pc, z3.Not(value_eq(ex, a, b))):
+                        L.fail_structural(v, o2, "%s: field %d differs after the wire round trip" % (name, k))
+                        bad = True
+                ok += 0 if bad else 1
+    v.covers_total += 1
+    v.covers_sat += 1 if ok >= 4 else 0
